@@ -124,6 +124,27 @@ Proof.
   - rewrite (proj1 (sync_fields tb pf fuel rs ds)). exact (ginv_unposted_rev _ _ i r (sync_run_ginv tb pf fuel rs ds)).
 Qed.
 
+(* ... nor does a whole scheduler loop started from any state *)
+Theorem C04_gone_forever_loops : forall W (tb : table W) pf fuel i,
+  (forall t ev s t' ev' s', gone_st i s -> stoch_loop tb pf fuel t ev s = (t', ev', s') -> gone_st i s') /\
+  (forall t ev k s t' ev' k' s', gone_st i s -> sync_loop tb pf fuel t ev k s = (t', ev', k', s') -> gone_st i s').
+Proof.
+  intros W tb pf fuel i. split.
+  - intros t ev s t' ev' s'. exact (stoch_loop_gone tb pf fuel t ev s t' ev' s' i).
+  - intros t ev k s t' ev' k' s'. exact (sync_loop_gone tb pf fuel t ev k s t' ev' k' s' i).
+Qed.
+
+(* the lazily deleted entries still in the heap at the end of a run are exactly ones the user un-posted *)
+Theorem C04_dead_entries_were_unposted : forall W (tb : table W) pf fuel rs ls ds x,
+  e_live x = false ->
+  (In x (queue (r_final (stoch_run tb pf fuel rs ls ds))) -> In (unposted x) (r_out (stoch_run tb pf fuel rs ls ds))) /\
+  (In x (queue (r_final (sync_run tb pf fuel rs ds))) -> In (unposted x) (r_out (sync_run tb pf fuel rs ds))).
+Proof.
+  intros W tb pf fuel rs ls ds x Hl. split; intros Hx.
+  - exact (stoch_run_dinv tb pf fuel rs ls ds x Hx Hl).
+  - exact (sync_run_dinv tb pf fuel rs ds x Hx Hl).
+Qed.
+
 (* ------------------------------------------------------------------ the fired entries and their records *)
 (* what run_pending returns is the number of entries it fired; it fires only live entries due by
    the bound; the handler records it emits are exactly those of the fired entries, in order:
@@ -335,8 +356,8 @@ Example C04_example_run_pending :
     [(1 # 2, 0%nat); (3 # 2, 4%nat); (2, 1%nat); (9 # 4, 6%nat); (5 # 2, 2%nat); (5 # 2, 5%nat)] /\
   map (fun x => (key x, e_live x)) (queue s') = [((7 # 2, 7%nat), true)].
 Proof.
-  cbv zeta. split; [|repeat split; vm_compute; reflexivity].
-  split; vm_compute; [repeat constructor; cbn; intuition discriminate|repeat constructor].
+  cbv zeta. vm_compute. split; [|repeat split].
+  split; [repeat constructor; cbn; intuition discriminate|repeat constructor].
 Qed.
 
 (* whole runs on the same table (outputs in Properties/C03.v): the premises of the order theorems
